@@ -398,10 +398,10 @@ class Ctx:
 
     def fail(self, key, what, cases, impl=None, expect=None):
         """A property-level failure observed on the implementation (replayable)."""
-        if len(self.failures) < 100:
+        # at most 4 recorded per class, so that a frequent (e.g. known) class cannot crowd out a new one
+        self.count("fail_" + key)
+        if sum(1 for f in self.failures if f["key"] == key) < 4 and len(self.failures) < 200:
             self.failures.append({"key": key, "what": what, "cases": cases, "impl": impl, "expect": expect})
-        else:
-            self.count("failures_not_recorded")
 
 
 def write_replay(pid, seed, obj):
